@@ -351,7 +351,8 @@ def run_case(spec, ctx):
         h_orig = S.h
         S.h = lambda t, q, u: h_orig(t, q, u) * (np.nan if t > t_bad else 1.0)
         det["t_bad"] = t_bad
-        res = _run(ctx, lambda: getattr(sv, spec["solver"])(S, t1, DT), det, None, 1.5 * DT, False, NSTEPS + 1)
+        # (no output instant beyond t_bad can have been computed: the first grid time after t_bad is the first unconverged one)
+        res = _run(ctx, lambda: getattr(sv, spec["solver"])(S, t1, DT), det, (int(t_bad / DT) + 1) * DT, 1.5 * DT, False, NSTEPS + 1)
         ctx.cls(f"nan_rhs:{spec['solver']}:{res}")
         if res == "warned":
             pass
